@@ -322,9 +322,13 @@ func (d *driver) behaviour(steps int, r int) {
 					}
 				}
 			} else {
-				d.do("Liquidate", M{"u": "kp", "b": int64(b.ID)})
+				d.do(d.liqAction(), M{"u": "kp", "b": int64(b.ID)})
 			}
 		case 16: // bid on a running auction (full or partial)
+			if f.V.V1 {
+				d.bidV1()
+				continue
+			}
 			aucs := e.App.NewaucKeeper.GetAuctions(e.Ctx)
 			if len(aucs) == 0 {
 				continue
@@ -341,7 +345,7 @@ func (d *driver) behaviour(steps int, r int) {
 					b := borrows[rng.Intn(len(borrows))]
 					d.aim(b, 1.0, 3.0)
 					if rng.Intn(2) == 0 {
-						d.do("Liquidate", M{"u": "kp", "b": int64(b.ID)})
+						d.do(d.liqAction(), M{"u": "kp", "b": int64(b.ID)})
 					} else {
 						d.do("Tick", M{"dt": int64(6)})
 					}
@@ -413,6 +417,39 @@ func (d *driver) preface(r int) {
 		return 0
 	}
 	switch {
+	case f.V.V1:
+		// first generation: two users borrow, prices make the positions unsafe, message / sweep, then bids: partial, over-sized closing
+		for i, u := range []string{"u1", "u2"} {
+			pid := int64(1 + i) // pairs 1 (XA->TB) and 2 (XA->TC)
+			p := d.pair(uint64(pid))
+			d.do("Lend", M{"u": u, "pool": int64(1), "asset": int64(1), "da": int64(1), "amt": amt * 3})
+			loan := pos(d.maxLoan(amt*3, p.AssetIn, p.AssetOut, d.ltvOf(p)) * 95 / 100)
+			d.do("Borrow", M{"u": u, "lend": lendID(u, 1, 1), "pair": pid, "ca": int64(1), "cin": amt * 3, "la": int64(p.AssetOut), "loan": loan, "stable": false, "mis": false})
+		}
+		if b, ok := lastBorrow(); ok {
+			d.aim(b, 0.93, 1.0)
+			d.do("LiquidateV1", M{"u": "kp", "b": int64(b.ID)})
+			d.do("Tick", M{"dt": int64(6)}) // the sweep looks at the nearly unsafe positions too
+			d.do("Tick", M{"dt": int64(6)})
+			d.aim(b, 1.02, 1.2)
+			d.do("Kill", M{"on": true}) // circuit breaker on: neither the sweep nor the message may seize the unsafe positions
+			d.do("Tick", M{"dt": int64(6)})
+			d.do("Tick", M{"dt": int64(6)})
+			d.do("LiquidateV1", M{"u": "kp", "b": int64(b.ID)})
+			d.do("Kill", M{"on": false})
+			if r%2 == 0 {
+				d.do("LiquidateV1", M{"u": "kp", "b": int64(b.ID)})
+			}
+			d.do("Tick", M{"dt": int64(6)})
+			d.do("Tick", M{"dt": int64(6)})
+			for _, a := range e.App.AuctionKeeper.GetDutchLendAuctions(e.Ctx, f.App) {
+				left := i64(a.OutflowTokenCurrentAmount.Amount)
+				da := f.assetOfDenom(a.OutflowTokenCurrentAmount.Denom)
+				d.do("BidV1", M{"u": "kp", "auc": int64(a.AuctionId), "map": int64(a.AuctionMappingId), "da": da, "amt": pos(left / 4)})
+				d.do("Tick", M{"dt": int64(300)})
+				d.do("BidV1", M{"u": "kp", "auc": int64(a.AuctionId), "map": int64(a.AuctionMappingId), "da": da, "amt": pos(left - left/4)})
+			}
+		}
 	case f.V.LowT1:
 		// cross-pool borrow from pool 1 while pool 1 lacks its first transit asset: bridged through the second one; then a liquidation
 		// request with the ratio just below the applicable threshold (nothing may happen), just above it (seizure), and a closing bid
@@ -474,4 +511,24 @@ func (d *driver) preface(r int) {
 			d.do("Deposit", M{"u": "u2", "lend": lendID("u2", 2, 1), "da": int64(2), "amt": int64(7)})
 		}
 	}
+}
+
+func (d *driver) liqAction() string {
+	if d.f.V.V1 {
+		return "LiquidateV1"
+	}
+	return "Liquidate"
+}
+
+// bidV1: first-generation lend Dutch bid; the amount is collateral asked for: tiny, partial, everything left (over-sized for the
+// remaining target while the posted price is above the oracle price), more than left
+func (d *driver) bidV1() {
+	aucs := d.e.App.AuctionKeeper.GetDutchLendAuctions(d.e.Ctx, d.f.App)
+	if len(aucs) == 0 {
+		return
+	}
+	a := aucs[d.rng.Intn(len(aucs))]
+	left := i64(a.OutflowTokenCurrentAmount.Amount)
+	amt := pos([]int64{left, left, left / 2, left / 3, left - 1, 1, 3, left + 1, left * 3 / 4}[d.rng.Intn(9)])
+	d.do("BidV1", M{"u": "kp", "auc": int64(a.AuctionId), "map": int64(a.AuctionMappingId), "da": d.f.assetOfDenom(a.OutflowTokenCurrentAmount.Denom), "amt": amt})
 }
